@@ -58,6 +58,7 @@ def main():
                    "source_commits": [c.split()[0] for c in commits if " verif-hooks:" in c], "add_only": True},
          "engines": [
              {"name": "tlc", "path": "/opt/veriftools/tla/tla2tools.jar", "serves_properties": sorted(CLAIMS), "kind_free_text": "TLC model checker: exhaustive exploration of the object machines in /verif/spec, and evaluator of the functional specification during trace validation"},
+             {"name": "apalache", "path": "/opt/veriftools/apalache", "serves_properties": ["C20"], "kind_free_text": "Apalache symbolic model checker: the counter step rules of spec/apalache/CountersA.tla at the real word widths (2^32, 2^64), one step from an arbitrary state"},
              {"name": "drive", "path": "/verif/harness", "serves_properties": sorted(CLAIMS), "kind_free_text": "Rust conformance harness built from /repo's working tree: replays TLC-generated behaviours on the real crate and records observation traces (contains no oracle)"}],
          "checks": [], "not_applicable": [], "notes": "see DESIGN.md; known_findings.json lists repaired (fixed:) and open findings"}
     for pid in sorted(CLAIMS):
